@@ -47,3 +47,12 @@ ASSUMPTIONS = [
     "inputs the model marks `unmodelled` (CBOR tags inside header values, big numbers, float/bstr map keys) are neither proved nor compared; their count is reported",
     "computational security of ECDSA/RSA-PSS/Ed25519 is not expressible; theorems about real algorithms are under explicit Scheme hypotheses",
 ]
+
+
+# additional theorem modules per property (namespace Cxx), beyond CoseProofs.Props.Cxx
+DEEP = {
+}
+
+
+def modules_for(pid):
+    return ["CoseProofs.Props." + pid] + DEEP.get(pid, [])
